@@ -19,11 +19,18 @@ def parse(path):
     cur = None
     for raw in open(path):
         line = raw.split("//")[0].strip()
-        if not line or line.startswith("#"):
+        if not line or line.startswith("#include"):
+            continue
+        if line.startswith("#") or line.endswith("\\"):
+            # macro definitions are not expanded: a function that uses one meets an unknown mnemonic and is unsupported
+            continue
+        ml = re.match(r"^(\w+):$", line)
+        if ml and cur is not None:
+            cur["labels"][ml.group(1)] = len(cur["ins"])
             continue
         m = re.match(r"TEXT\s+·(\w+)\(SB\)\s*,\s*([\w|]+)\s*,\s*\$(\d+)-(\d+)", line)
         if m:
-            cur = {"name": m.group(1), "flags": m.group(2), "frame": int(m.group(3)), "argsize": int(m.group(4)), "ins": []}
+            cur = {"name": m.group(1), "flags": m.group(2), "frame": int(m.group(3)), "argsize": int(m.group(4)), "ins": [], "labels": {}}
             funcs[cur["name"]] = cur
             continue
         if cur is None:
@@ -35,14 +42,26 @@ def parse(path):
     return funcs
 
 
-def static_checks(fn):
-    """constant-time / memory-safety shape: no jumps or calls, memory operands are constant
-    offsets from registers loaded from pointer arguments only"""
+STRAIGHT = ("MOVQ", "MULQ", "IMUL3Q", "ADDQ", "ADCQ", "SHLQ", "SHRQ", "ANDQ", "RET", "SUBQ", "SBBQ", "XORQ", "ORQ", "NOTQ", "NEGQ", "DECQ", "INCQ", "CMPQ")
+JUMPS = ("JNZ", "JNE", "JZ", "JE", "JMP")
+
+
+def static_checks(fn, int_args=()):
+    """constant-time / memory-safety shape: no calls; memory operands are constant offsets from registers that hold
+    pointer arguments; a conditional jump is allowed only when the flags it tests were set by DECQ/INCQ/SUBQ $imm/CMPQ $imm
+    on a register that holds nothing but an integer argument (a public loop count) and constants"""
     problems = []
-    ptr_regs = set()
+    ptr_regs, cnt_regs = set(), set()
+    flags_public = False
     for mn, ops, raw in fn["ins"]:
-        if mn not in ("MOVQ", "MULQ", "IMUL3Q", "ADDQ", "ADCQ", "SHLQ", "SHRQ", "ANDQ", "RET"):
-            problems.append("mnemonic outside the straight-line subset: " + raw)
+        if mn in JUMPS:
+            if mn != "JMP" and not flags_public:
+                problems.append("conditional jump on flags not derived from an integer argument: " + raw)
+            if not ops or ops[0] not in fn.get("labels", {}):
+                problems.append("jump target: " + raw)
+            continue
+        if mn not in STRAIGHT:
+            problems.append("mnemonic outside the supported subset: " + raw)
             continue
         for i, o in enumerate(ops):
             m = re.match(r"^(-?\d*)\((\w+)\)$", o)
@@ -55,17 +74,31 @@ def static_checks(fn):
                 pass
             else:
                 problems.append("operand form: " + raw)
-        # track pointer registers: loaded from FP, never overwritten by data
-        if mn == "MOVQ" and re.match(r"^\w+\+\d+\(FP\)$", ops[0]):
-            ptr_regs.add(ops[1])
+        mfp = re.match(r"^(\w+)\+\d+\(FP\)$", ops[0]) if ops else None
+        if mn == "MOVQ" and mfp:
+            # loaded from FP: a pointer argument, or an integer argument (a public count)
+            (cnt_regs if mfp.group(1) in int_args else ptr_regs).add(ops[1])
+            (ptr_regs if mfp.group(1) in int_args else cnt_regs).discard(ops[1])
+        elif mn == "MOVQ" and ops[0] in ptr_regs and ops[1] in REGS:
+            ptr_regs.add(ops[1])       # copy of a pointer argument
+            cnt_regs.discard(ops[1])
+        elif mn in ("DECQ", "INCQ") and ops[0] in cnt_regs:
+            flags_public = True
+            continue
+        elif mn in ("SUBQ", "CMPQ") and ops[0].startswith("$") and ops[1] in cnt_regs:
+            flags_public = True
+            continue
         elif ops:
             dst = ops[-1]
-            if dst in ptr_regs and mn != "RET":
-                # pointer register overwritten with data: later memory operands through it are flagged
+            if mn not in ("RET", "CMPQ"):
                 ptr_regs.discard(dst)
+                cnt_regs.discard(dst)
             if mn == "MULQ":
-                ptr_regs.discard("AX")
-                ptr_regs.discard("DX")
+                for r_ in ("AX", "DX"):
+                    ptr_regs.discard(r_)
+                    cnt_regs.discard(r_)
+        if mn != "MOVQ":
+            flags_public = False
     return problems
 
 
@@ -74,6 +107,7 @@ class AsmMachine:
         self.ex, self.path, self.fn = ex, path, fn
         self.regs = {}
         self.cf = 0
+        self.zf = None      # the value whose being zero the Z flag reports (None: undefined)
         self.args = dict(zip(argnames, args))
         self.u64 = ex.prog.T("uint64")
 
@@ -92,7 +126,7 @@ class AsmMachine:
         if m:
             off = int(m.group(1) or "0")
             base = self.regs[m.group(2)]
-            if not isinstance(base, Ptr) or off % 8 or not (0 <= off < 40):
+            if not isinstance(base, Ptr) or off % 8 or not (0 <= off < 64):
                 raise AsmUnsupported("memory operand " + o)
             return ex.load(self.path, Ptr(base.obj, base.path + (off // 8,)), self.u64)
         raise AsmUnsupported("operand " + o)
@@ -105,7 +139,7 @@ class AsmMachine:
         if m:
             off = int(m.group(1) or "0")
             base = self.regs[m.group(2)]
-            if not isinstance(base, Ptr) or off % 8 or not (0 <= off < 40):
+            if not isinstance(base, Ptr) or off % 8 or not (0 <= off < 64):
                 raise AsmUnsupported("memory operand " + o)
             if isinstance(v, Ptr):
                 raise AsmUnsupported("pointer stored to memory")
@@ -118,10 +152,31 @@ class AsmMachine:
             raise AsmUnsupported("arithmetic on pointer")
         return self.ex.binop(self.path, op, x, y, self.u64, self.u64, self.u64)
 
+    def concrete(self, v, raw):
+        if type(v) is int:
+            return v
+        if hasattr(v, "is_const") and v.is_const():        # Int-LF constant
+            return int(v.c)
+        try:
+            import z3
+            if z3.is_bv_value(v):
+                return v.as_long()
+        except Exception:
+            pass
+        raise AsmUnsupported("jump on a symbolic condition: " + raw)
+
     def run(self):
         ex = self.ex
         m = ex.summaries
-        for mn, ops, raw in self.fn["ins"]:
+        ins, labels = self.fn["ins"], self.fn.get("labels", {})
+        pc, steps = 0, 0
+        M64 = (1 << 64) - 1
+        while pc < len(ins):
+            mn, ops, raw = ins[pc]
+            pc += 1
+            steps += 1
+            if steps > 200000:
+                raise AsmUnsupported("step limit in " + self.fn["name"])
             if mn == "MOVQ":
                 self.wr(ops[1], self.rd(ops[0]))
             elif mn == "MULQ":
@@ -132,11 +187,26 @@ class AsmMachine:
             elif mn == "ADDQ":
                 s, c = m["math/bits.Add64"](ex, self.path, [self.rd(ops[1]), self.rd(ops[0]), 0])
                 self.wr(ops[1], s)
-                self.cf = c
+                self.cf, self.zf = c, s
             elif mn == "ADCQ":
                 s, c = m["math/bits.Add64"](ex, self.path, [self.rd(ops[1]), self.rd(ops[0]), self.cf])
                 self.wr(ops[1], s)
-                self.cf = c
+                self.cf, self.zf = c, s
+            elif mn in ("SUBQ", "CMPQ"):
+                # Go operand order: SUBQ src, dst (dst -= src); CMPQ a, b compares a with b (flags of a - b)
+                a, b = (self.rd(ops[1]), self.rd(ops[0])) if mn == "SUBQ" else (self.rd(ops[0]), self.rd(ops[1]))
+                d, bo = m["math/bits.Sub64"](ex, self.path, [a, b, 0])
+                if mn == "SUBQ":
+                    self.wr(ops[1], d)
+                self.cf, self.zf = bo, d
+            elif mn == "SBBQ":
+                d, bo = m["math/bits.Sub64"](ex, self.path, [self.rd(ops[1]), self.rd(ops[0]), self.cf])
+                self.wr(ops[1], d)
+                self.cf, self.zf = bo, d
+            elif mn in ("DECQ", "INCQ"):
+                v = self.bin("-" if mn == "DECQ" else "+", self.rd(ops[0]), 1)
+                self.wr(ops[0], v)
+                self.zf = v         # CF is not affected
             elif mn == "SHLQ":
                 k = self.rd(ops[0])
                 if type(k) is not int:
@@ -147,16 +217,34 @@ class AsmMachine:
                     self.wr(ops[2], r)
                 else:
                     self.wr(ops[1], self.bin("<<", self.rd(ops[1]), k))
-                self.cf = None
+                self.cf = self.zf = None
             elif mn == "SHRQ":
                 k = self.rd(ops[0])
                 if type(k) is not int or len(ops) != 2:
                     raise AsmUnsupported(raw)
                 self.wr(ops[1], self.bin(">>", self.rd(ops[1]), k))
-                self.cf = None
-            elif mn == "ANDQ":
-                self.wr(ops[1], self.bin("&", self.rd(ops[1]), self.rd(ops[0])))
-                self.cf = 0
+                self.cf = self.zf = None
+            elif mn in ("ANDQ", "ORQ", "XORQ"):
+                r = 0 if (mn == "XORQ" and ops[0] == ops[1]) else self.bin({"ANDQ": "&", "ORQ": "|", "XORQ": "^"}[mn], self.rd(ops[1]), self.rd(ops[0]))
+                self.wr(ops[1], r)
+                self.cf, self.zf = 0, r
+            elif mn == "NOTQ":
+                self.wr(ops[0], self.bin("^", self.rd(ops[0]), M64))
+            elif mn == "NEGQ":
+                d, bo = m["math/bits.Sub64"](ex, self.path, [0, self.rd(ops[0]), 0])
+                self.wr(ops[0], d)
+                self.cf, self.zf = bo, d
+            elif mn in JUMPS:
+                if ops[0] not in labels:
+                    raise AsmUnsupported("jump target " + raw)
+                if mn == "JMP":
+                    pc = labels[ops[0]]
+                else:
+                    if self.zf is None:
+                        raise AsmUnsupported("jump on undefined flags: " + raw)
+                    z = self.concrete(self.zf, raw) == 0
+                    if z == (mn in ("JZ", "JE")):
+                        pc = labels[ops[0]]
             elif mn == "RET":
                 return
             else:
@@ -168,18 +256,28 @@ _parsed = {}
 
 
 def install(ex, repo=None):
-    """route the body-less feMul/feSquare to the assembly interpreter"""
+    """route every body-less function that has a TEXT symbol in an amd64 assembly file of the two packages to the
+    assembly interpreter (feMul / feSquare today; a new assembly routine is picked up from its Go declaration)"""
     from .ir import REPO
-    path = os.path.join(repo or REPO, "field", "fe_amd64.s")
-    funcs = parse(path)
-    F = "filippo.io/edwards25519/field."
-    sigs = {"feMul": ["out", "a", "b"], "feSquare": ["out", "a"]}
-    for name, argn in sigs.items():
+    import glob
+    root = repo or REPO
+    funcs = {}
+    for pkg, d in (("filippo.io/edwards25519/field.", os.path.join(root, "field")), ("filippo.io/edwards25519.", root)):
+        for path in sorted(glob.glob(os.path.join(d, "*_amd64.s"))):
+            for name, fn in parse(path).items():
+                decl = ex.prog.funcs.get(pkg + name)
+                if decl is None or not decl.get("external"):
+                    continue
+                fn["go_name"] = pkg + name
+                fn["argnames"] = [p["name"] for p in decl["params"]]
+                fn["int_args"] = [p["name"] for p in decl["params"] if ex.prog.T(p["type"]).u.k == "basic"]
+                funcs[name] = fn
+    for name in ("feMul", "feSquare"):
         if name not in funcs:
             raise AsmUnsupported("missing TEXT " + name)
-
-        def summ(ex_, p, args, fn=funcs[name], argn=argn):
-            AsmMachine(ex_, p, fn, args, argn).run()
+    for name, fn in funcs.items():
+        def summ(ex_, p, args, fn=fn):
+            AsmMachine(ex_, p, fn, args, fn["argnames"]).run()
             return None
-        ex.summaries[F + name] = summ
+        ex.summaries[fn["go_name"]] = summ
     return funcs
